@@ -260,9 +260,53 @@ func runC13(c *Ctx, w *World, r *Report) {
 	r.Rule("R-CLIP", "every non-constant returned position p satisfies the range test exactly (NextOne: p < end, PrevOne: p >= i) on the returning edge and the failing edge returns -1")
 	r.Rule("R-FIRSTWORD", "the first word examined is masked with the table that keeps the range side of the start bit: RMask[i&63] (bits >= i) for NextOne, MaskUpto[(end-1)&63] (bits <= end-1) for PrevOne, indexed by the offset of the same position whose >>6 selects the word")
 
+	r.Rule("R-EMPTYONLY", "a return of the not-found constant that is reached before any word of the bitmap was examined is taken only for an empty range: its path conditions imply end <= i. A guard or shortcut that answers 'nothing found' for a non-empty range without looking (e.g. a range that ends exactly at the end of the bitmap) loses the 1-bits of that range")
 	for _, n := range names {
 		fn := fns[n]
 		fa := w.FA(fn)
+		{
+			bad := ""
+			nret := 0
+			var loadBlocks []*ssa.BasicBlock
+			eachInstr(fn, func(ins ssa.Instruction) {
+				if v, ok := ins.(ssa.Value); ok {
+					if cont, _, ok := asElemLoad(v); ok && containerRole(cont) == "bm" {
+						loadBlocks = append(loadBlocks, ins.Block())
+					}
+				}
+			})
+			spanL := fa.Lin(fn.Params[2]).Sub(fa.Lin(fn.Params[1]))
+			for _, ret := range returnsOf(fn) {
+				if len(ret.Results) == 0 {
+					continue
+				}
+				allConst := true
+				for _, src := range resolvePhi(ret.Results[0]) {
+					if _, ok := constInt64(stripConv(src)); !ok {
+						allConst = false
+					}
+				}
+				if !allConst {
+					continue
+				}
+				examined := false
+				for _, lb := range loadBlocks {
+					if lb.Dominates(ret.Block()) {
+						examined = true
+					}
+				}
+				if examined {
+					continue
+				}
+				nret++
+				for _, cs := range fa.CondsDNF(ret.Block(), 0) {
+					if bd := fa.boundsFrom(cs, spanL); !(bd.HasHi && bd.Hi <= 0) {
+						bad = fmt.Sprintf("the return at %s answers not-found before any word was examined on a path where (end - i) is in %s: only an empty range may be answered without looking", w.InstrPos(ret), bd)
+					}
+				}
+			}
+			r.Check(bad == "", "R-EMPTYONLY", n, w.Pos(fn.Pos()), bad, fmt.Sprintf("%d constant returns that precede every word load; each implies end <= i", nret))
+		}
 		k := checkWordPositions(w, r, fn, n, 0, "bm")
 		if k < 2 {
 			r.Bad("R-WPC1", n+"|sites", w.Pos(fn.Pos()), fmt.Sprintf("expected at least 2 word-scan position sites (first word, following words), found %d", k))
@@ -498,7 +542,7 @@ func init() {
 		Explain: "Structural necessary conditions of NextOne/PrevOne (DESIGN.md 5/C13): unit consistency (E4), shift/mask pairing, alignment constants, and E5 word/position coherence: each returned position lies inside the word that was examined (congruence mod 64 + word index identity), is computed only from a non-zero word, and is clipped to the range exactly; the first word is masked on the correct side.",
 		NotDec:  []string{"contents of RMask/MaskUpto (built by an init loop)", "termination / that no word between start and result is skipped beyond what the +-64 step with aligned base implies"},
 		Trusted: []string{"go/ssa construction", "math/bits.TrailingZeros64 / LeadingZeros64 semantics"},
-		Quick:   []Config{cfgDefault}, Thorough: []Config{cfgDefault, cfg386},
+		Quick:   []Config{cfgDefault, cfg386}, Thorough: []Config{cfgDefault, cfg386},
 		Run: runC13,
 	})
 }
